@@ -154,12 +154,19 @@ Chains(rs) == { rs, <<At("media", <<Par(<<I("width", FALSE), Col(FALSE), Dim(3, 
                 <<At("media", <<I("screen", TRUE)>>, "rules", <<Ord("m")>> \o <<At("supports", <<Par(<<I("color", FALSE), Col(FALSE), I("red", TRUE)>>, TRUE)>>, "rules", rs)>> \o <<Ord("n")>>)>>,
                 <<At("supports", <<Par(<<I("a", FALSE), Col(FALSE), I("b", FALSE)>>, TRUE)>>, "rules",
                     <<At("media", <<I("print", TRUE)>>, "rules", <<At("media", <<Par(<<I("c", FALSE), Col(FALSE), Dim(3, "rpx", FALSE)>>, TRUE)>>, "rules", rs)>>)>>)>> }
+(* block at-rules that hold no rules (declarations, keyframes), standing before the :host rule in the same chain *)
+NoRules == { At("font-face", <<>>, "decls", <<Decl("font-family", <<Str("F", FALSE)>>)>>),
+             At("keyframes", <<I("k", TRUE)>>, "keyframes", <<Frame(<<I("from", FALSE)>>, <<Decl("left", <<Dim(3, "rpx", FALSE)>>)>>)>>),
+             At("page", <<Col(TRUE), I("first", FALSE)>>, "decls", <<Decl("margin", <<Dim(3, "px", FALSE)>>)>>),
+             At("unknown", <<I("x", TRUE)>>, "decls", <<Decl("a", <<I("b", FALSE)>>)>>) }
 FHost(lazy) == UNION { Chains(<<Ord("a"), h, Ord("b")>>) \cup Chains(<<h, h>>) \cup Chains(<<Ord("a"), h>>) : h \in HostRules }
+          \cup UNION { Chains(<<n, h>>) \cup Chains(<<h, n, h, Ord("z")>>) : n \in NoRules, h \in {Rule(HostSel, HD)} }
 HostOpts == {[NoOpt EXCEPT !.host = hs, !.prefix = p, !.hostIs = hi] : hs \in BOOLEAN, p \in {"none", "p"}, hi \in {"none", "IS"}}
 
 -----------------------------------------------------------------------------
 (* @import placeholder (C18) *)
-ImportPaths == {"a.wxss", "./a b", "../x/y.css", "a*/b", "q'r", "q\"r", "50%", "~E~/~Z~", "~M~", "a?b#c&d=e"}
+ImportPaths == {"a.wxss", "./a b", "../x/y.css", "a*/b", "q'r", "q\"r", "50%", "~E~/~Z~", "~M~", "a?b#c&d=e",
+                "a%20b", "100%25off/%2A%2F", "%zz%2", "%", "%%41", "a+b c%2B", "a\\b"}
 FImport(lazy) == { <<Import(f, p, l, s, m)>> : f \in {"string", "url"}, p \in ImportPaths, l \in {"none", "", "x"},
                                          s \in {<<>>, <<I("display", FALSE), Col(FALSE), I("grid", TRUE)>>},
                                          m \in {<<>>, <<I("screen", TRUE)>>, <<I("screen", TRUE), I("and", TRUE), Par(<<I("min-width", FALSE), Col(FALSE), Dim(3, "rpx", TRUE)>>, TRUE)>>} }
